@@ -33,6 +33,12 @@ Next ==
                /\ Bump(5)
                /\ Check(IndexStable(colors, e.colors), "C16", "IndexStable", l, [via |-> e.via])
                /\ colors' = e.colors
+          [] e.ev = "addc" ->    \* colours requested through SGR 38;2 / 48;2: the caret's index resolves to exactly the requested value
+               /\ Bump(5)
+               /\ Check(IndexStable(colors, e.colors), "C16", "IndexStable", l, [via |-> e.via])
+               /\ Check(~Has(e.fg, "req") \/ e.fg.got = e.fg.req, "C16", "InsertResolves", l, [via |-> e.via, which |-> "foreground", c |-> IF Has(e.fg, "req") THEN e.fg.req ELSE <<>>, got |-> IF Has(e.fg, "got") THEN e.fg.got ELSE <<>>])
+               /\ Check(~Has(e.bg, "req") \/ e.bg.got = e.bg.req, "C16", "InsertResolves", l, [via |-> e.via, which |-> "background", c |-> IF Has(e.bg, "req") THEN e.bg.req ELSE <<>>, got |-> IF Has(e.bg, "got") THEN e.bg.got ELSE <<>>])
+               /\ colors' = e.colors
           [] e.ev = "setn" ->    \* Palette::set_color with a named colour: the trace records RGB only
                /\ Expect(SetColor(colors, e.i, e.c).colors = e.colors, "setn", l, [i |-> e.i])
                /\ colors' = e.colors
